@@ -184,35 +184,35 @@ Proof.
 Qed.
 
 (* ================================================================ 2. SaveGlobals *)
-(* the line a binding contributes, if any *)
-Definition line_of (maxlen : Z) (extras : list bytes) (b : bytes * sval) : option bytes :=
-  match save_one maxlen extras (fst b) (snd b) with LLine l => Some l | _ => None end.
+(* the line a binding contributes, if any ([store] = the whole root environment, looked at for aliases of functions) *)
+Definition line_of (store : list (bytes * sval)) (maxlen : Z) (extras : list bytes) (b : bytes * sval) : option bytes :=
+  match save_one store maxlen extras (fst b) (snd b) with LLine l => Some l | _ => None end.
 
-Definition panics (maxlen : Z) (extras : list bytes) (b : bytes * sval) : bool :=
-  match save_one maxlen extras (fst b) (snd b) with LPanic => true | _ => false end.
+Definition panics (store : list (bytes * sval)) (maxlen : Z) (extras : list bytes) (b : bytes * sval) : bool :=
+  match save_one store maxlen extras (fst b) (snd b) with LPanic => true | _ => false end.
 
-Fixpoint kept_lines (maxlen : Z) (extras : list bytes) (bs : list (bytes * sval)) : list bytes :=
+Fixpoint kept_lines (store : list (bytes * sval)) (maxlen : Z) (extras : list bytes) (bs : list (bytes * sval)) : list bytes :=
   match bs with
   | [] => []
   | b :: r =>
-    match line_of maxlen extras b with
-    | Some l => l :: kept_lines maxlen extras r
-    | None => kept_lines maxlen extras r
+    match line_of store maxlen extras b with
+    | Some l => l :: kept_lines store maxlen extras r
+    | None => kept_lines store maxlen extras r
     end
   end.
 
 Definition file_of (lines : list bytes) : bytes := flat_map (fun l => l ++ [10]) lines.
 
-Lemma save_loop_spec maxlen extras : forall bs out n,
-  existsb (panics maxlen extras) bs = false ->
-  save_loop maxlen extras bs out n =
-  Some (out ++ file_of (kept_lines maxlen extras bs), (n + List.length (kept_lines maxlen extras bs))%nat).
+Lemma save_loop_spec store maxlen extras : forall bs out n,
+  existsb (panics store maxlen extras) bs = false ->
+  save_loop store maxlen extras bs out n =
+  Some (out ++ file_of (kept_lines store maxlen extras bs), (n + List.length (kept_lines store maxlen extras bs))%nat).
 Proof.
   induction bs as [|[k v] r IH]; intros out n H; cbn [save_loop kept_lines].
   - cbn [file_of flat_map List.length]. rewrite app_nil_r, Nat.add_0_r. reflexivity.
   - cbn [existsb] in H. apply orb_false_iff in H. destruct H as [H1 H2].
     unfold panics, line_of in *. cbn [fst snd] in *.
-    destruct (save_one maxlen extras k v) eqn:E; try discriminate.
+    destruct (save_one store maxlen extras k v) eqn:E; try discriminate.
     + apply IH. exact H2.
     + apply IH. exact H2.
     + rewrite IH by exact H2. cbn [file_of flat_map List.length]. rewrite <- !app_assoc.
@@ -220,12 +220,12 @@ Proof.
 Qed.
 
 (* the loop stops with a panic exactly when some binding's printer panics *)
-Lemma save_loop_panic maxlen extras : forall bs out n,
-  existsb (panics maxlen extras) bs = true -> save_loop maxlen extras bs out n = None.
+Lemma save_loop_panic store maxlen extras : forall bs out n,
+  existsb (panics store maxlen extras) bs = true -> save_loop store maxlen extras bs out n = None.
 Proof.
   induction bs as [|[k v] r IH]; intros out n H; cbn [save_loop existsb] in *; [discriminate|].
   unfold panics in H at 1. cbn [fst snd] in H.
-  destruct (save_one maxlen extras k v) eqn:E; cbn [orb] in H; try (apply IH; exact H). reflexivity.
+  destruct (save_one store maxlen extras k v) eqn:E; cbn [orb] in H; try (apply IH; exact H). reflexivity.
 Qed.
 
 (* ---- sorting *)
@@ -297,34 +297,20 @@ Proof.
 Qed.
 
 (* ---- the limit never truncates: a binding is written in full or not at all *)
-Lemma limit_writes_full_line maxlen extras k v l :
-  save_one maxlen extras k v = LLine l -> save_one 0 extras k v = LLine l.
+Lemma limit_writes_full_line store maxlen extras k v l :
+  save_one store maxlen extras k v = LLine l -> save_one store 0 extras k v = LLine l.
 Proof.
-  unfold save_one, kv_line, too_long. destruct (const_extra extras k); [discriminate|].
-  change (Z.ltb 0 0) with false. cbn [andb].
-  destruct v as [d|name params body|named txt].
-  - destruct (_ && _); [discriminate|]. auto.
-  - destruct (func_text name params body); [|discriminate].
-    destruct name as [nm|]; [destruct (beqb nm k); auto|]; destruct (_ && _); try discriminate; auto.
-  - destruct named; auto. destruct (_ && _); [discriminate|]. auto.
+  unfold save_one, kv_line, too_long. destruct (binding_out store extras k v); try discriminate; auto.
+  change (Z.ltb 0 0) with false. cbn [andb]. destruct (_ && _); [discriminate|]. auto.
 Qed.
 
-Lemma limit_skips_only_long maxlen extras k v :
-  save_one maxlen extras k v = LSkipLong ->
-  exists val, save_one 0 extras k v = LLine (k ++ [61] ++ val) /\ (0 < maxlen < Z.of_nat (List.length val))%Z.
+Lemma limit_skips_only_long store maxlen extras k v :
+  save_one store maxlen extras k v = LSkipLong ->
+  exists val, save_one store 0 extras k v = LLine (k ++ [61] ++ val) /\ (0 < maxlen < Z.of_nat (List.length val))%Z.
 Proof.
-  unfold save_one, kv_line, too_long. destruct (const_extra extras k); [discriminate|].
-  change (Z.ltb 0 0) with false. cbn [andb].
-  assert (K : forall val, (if (0 <? maxlen)%Z && (maxlen <? Z.of_nat (List.length val))%Z then LSkipLong else LLine (k ++ [61] ++ val)) = LSkipLong ->
-              (0 < maxlen < Z.of_nat (List.length val))%Z).
-  { intros val. destruct (0 <? maxlen)%Z eqn:E1; destruct (maxlen <? Z.of_nat (List.length val))%Z eqn:E2; cbn [andb]; try discriminate. lia. }
-  destruct v as [d|name params body|named txt].
-  - intro H. eexists. split; [reflexivity|]. apply K. exact H.
-  - destruct (func_text name params body) as [txt|]; [|discriminate].
-    destruct name as [nm|].
-    + destruct (beqb nm k); [discriminate|]. intro H. eexists. split; [reflexivity|]. apply K. exact H.
-    + intro H. eexists. split; [reflexivity|]. apply K. exact H.
-  - destruct named; [discriminate|]. intro H. eexists. split; [reflexivity|]. apply K. exact H.
+  unfold save_one, kv_line, too_long. destruct (binding_out store extras k v) as [|l|val|]; try discriminate.
+  change (Z.ltb 0 0) with false. cbn [andb]. intro H. exists val. split; [reflexivity|].
+  destruct (0 <? maxlen)%Z eqn:E1; destruct (maxlen <? Z.of_nat (List.length val))%Z eqn:E2; cbn [andb] in H; try discriminate. lia.
 Qed.
 
 (* the lines written under a limit are a sub-sequence of the lines written without limit *)
@@ -333,24 +319,19 @@ Inductive sublist {A} : list A -> list A -> Prop :=
 | sub_keep : forall x a b, sublist a b -> sublist (x :: a) (x :: b)
 | sub_drop : forall x a b, sublist a b -> sublist a (x :: b).
 
-Lemma kept_lines_limit_sublist maxlen extras bs :
-  sublist (kept_lines maxlen extras bs) (kept_lines 0 extras bs).
+Lemma kept_lines_limit_sublist store maxlen extras bs :
+  sublist (kept_lines store maxlen extras bs) (kept_lines store 0 extras bs).
 Proof.
   induction bs as [|[k v] r IH]; cbn [kept_lines]; [constructor|].
   unfold line_of. cbn [fst snd].
-  destruct (save_one maxlen extras k v) eqn:E.
-  - (* const: skipped without limit too *)
-    assert (E0 : save_one 0 extras k v = LSkipConst).
-    { unfold save_one in *. destruct (const_extra extras k); [reflexivity|].
-      destruct v as [d|name params body|named txt]; unfold kv_line in E.
-      - destruct (too_long maxlen (inspect d)); discriminate.
-      - destruct (func_text name params body); [|discriminate].
-        destruct name as [nm|]; [destruct (beqb nm k)|]; try discriminate; destruct (too_long maxlen _); discriminate.
-      - destruct named; [discriminate|]. destruct (too_long maxlen txt); discriminate. }
+  destruct (save_one store maxlen extras k v) eqn:E.
+  - assert (E0 : save_one store 0 extras k v = LSkipConst).
+    { unfold save_one, kv_line in *. destruct (binding_out store extras k v); try discriminate; auto.
+      destruct (too_long maxlen val); discriminate. }
     rewrite E0. exact IH.
-  - destruct (limit_skips_only_long _ _ _ _ E) as [val [E0 _]]. rewrite E0. constructor. exact IH.
-  - rewrite (limit_writes_full_line _ _ _ _ _ E). constructor. exact IH.
-  - destruct (save_one 0 extras k v); try exact IH. constructor. exact IH.
+  - destruct (limit_skips_only_long _ _ _ _ _ E) as [val [E0 _]]. rewrite E0. constructor. exact IH.
+  - rewrite (limit_writes_full_line _ _ _ _ _ _ E). constructor. exact IH.
+  - destruct (save_one store 0 extras k v); try exact IH. constructor. exact IH.
 Qed.
 
 (* ---- splitting the file at newlines gives back the lines *)
